@@ -49,7 +49,7 @@ var c19Inst = prio.Inst{Kind: prio.Count}
 func TestVerifC19_count_ctor(t *testing.T) {
 	r := verifmc.Start(t, "C19", "count_ctor")
 	defer r.Finish()
-	c19Sys().UnitCtor(r, []prio.Inst{c19Inst}, []int{0, 1, 2, 3, 4, 8, 9, 16, 128, 254, 255})
+	c19Sys().UnitCtor(r, []prio.Inst{c19Inst}, []int{2, 3, 4, 8, 9, 16, 128, 254, 255, 0, 1})
 }
 
 func TestVerifC19_count_agg(t *testing.T) {
@@ -60,11 +60,13 @@ func TestVerifC19_count_agg(t *testing.T) {
 		FullShares:  []int{2, 3, 4, 8, 9},
 		LightShares: []int{5, 16, 128, 254, 255},
 		MaxBatch:    r.Pick(5, 8),
+		RTMaxBatch:  2,
 		Seeds:       5,
 		DomainLimit: 8,
 	}
 	if r.Thorough() {
 		plan.FullShares = []int{2, 3, 4, 5, 6, 7, 8, 9, 10, 255}
+		plan.LightShares = []int{16, 128, 254}
 	}
 	c19Sys().UnitAgg(r, t, plan)
 }
